@@ -9,21 +9,21 @@ let parse (s : string) : sexp =
   let n = Stdlib.String.length s in
   let pos = ref 0 in
   let is_ws c = c = ' ' || c = '\t' || c = '\n' || c = '\r' in
-  let rec skip () = if !pos < n && is_ws s.[!pos] then (incr pos; skip ()) in
+  let rec skip () = if !pos < n && is_ws (Stdlib.String.get s !pos) then (incr pos; skip ()) in
   let rec item () =
     skip ();
     if !pos >= n then failwith "driver: unexpected end";
-    if s.[!pos] = '(' then begin
+    if (Stdlib.String.get s !pos) = '(' then begin
       incr pos;
       let rec items acc =
         skip ();
         if !pos >= n then failwith "driver: unclosed";
-        if s.[!pos] = ')' then (incr pos; Stdlib.List.rev acc) else items (item () :: acc)
+        if (Stdlib.String.get s !pos) = ')' then (incr pos; Stdlib.List.rev acc) else items (item () :: acc)
       in
       L (items [])
     end else begin
       let st = !pos in
-      while !pos < n && not (is_ws s.[!pos]) && s.[!pos] <> '(' && s.[!pos] <> ')' do incr pos done;
+      while !pos < n && not (is_ws (Stdlib.String.get s !pos)) && (Stdlib.String.get s !pos) <> '(' && (Stdlib.String.get s !pos) <> ')' do incr pos done;
       A (Stdlib.String.sub s st (!pos - st))
     end
   in
@@ -189,6 +189,14 @@ let ekind_s = function
   | MarkerParse.ENotEnd -> A "not-end" | MarkerParse.ENotOther -> A "not-other"
   | MarkerParse.ECharEnd c -> L [A "char-end"; an c] | MarkerParse.ECharOther c -> L [A "char-other"; an c]
   | MarkerParse.EUnexpectedAndOr -> A "unexpected-andor" | MarkerParse.EUnexpectedEnd -> A "unexpected-end"
+  | MarkerParse.EEmpty -> A "empty" | MarkerParse.ENameStart -> A "name-start" | MarkerParse.ENameEnd -> A "name-end"
+  | MarkerParse.EUnsupportedPath -> A "unsupported-path" | MarkerParse.EUnsupportedUrl -> A "unsupported-url"
+  | MarkerParse.EExtrasComma -> A "extras-comma" | MarkerParse.EExtrasSep -> A "extras-sep" | MarkerParse.EExtrasEof -> A "extras-eof"
+  | MarkerParse.EExtrasStart -> A "extras-start" | MarkerParse.EExtrasChar -> A "extras-char" | MarkerParse.EExtrasEnd -> A "extras-end"
+  | MarkerParse.EExpectedUrl -> A "expected-url" | MarkerParse.EUrl -> A "url" | MarkerParse.ESpec -> A "spec"
+  | MarkerParse.EParenMissing -> A "paren-missing" | MarkerParse.EExpectedOneOf -> A "expected-one-of"
+  | MarkerParse.EAmbiguous c -> L [A "ambiguous"; an c] | MarkerParse.EEndOrSemi -> A "end-or-semi" | MarkerParse.EEnd -> A "end"
+  | MarkerParse.EPanic -> A "model-panic-site"
 let smexpr (e : Expr.mexpr) : sexp =
   match e with
   | Expr.EVersion (k, op, rel) -> L [A "ver"; an k; svop op; L (Stdlib.List.map an rel)]
@@ -204,6 +212,10 @@ let t_specpat : (string, sexp) Stdlib.Hashtbl.t = Stdlib.Hashtbl.create 64
 let t_specver : (string, sexp) Stdlib.Hashtbl.t = Stdlib.Hashtbl.create 64
 let t_kw : (Cursor.text * MarkerParse.mvalue) list ref = ref []
 let t_keys : (coq_N * coq_N) ref = ref (N0, N0)
+let t_spec : (string, sexp) Stdlib.Hashtbl.t = Stdlib.Hashtbl.create 64
+let t_url : (string, sexp) Stdlib.Hashtbl.t = Stdlib.Hashtbl.create 64
+let t_env : (string, sexp) Stdlib.Hashtbl.t = Stdlib.Hashtbl.create 16
+let t_root : coq_N list ref = ref []
 let key_of_text (t : coq_N list) = Stdlib.String.concat "," (Stdlib.List.map string_of_n t)
 let tab (cmd : sexp list) : sexp =
   (match cmd with
@@ -217,7 +229,13 @@ let tab (cmd : sexp list) : sexp =
        | L [t; L [A "str"; k]] -> (str t, MarkerParse.MVString (num k))
        | _ -> failwith "driver: keyword table") l
    | [A "keys"; pv; pfv] -> t_keys := (num pv, num pfv)
-   | [A "reset"] -> Stdlib.Hashtbl.reset t_vparse; Stdlib.Hashtbl.reset t_specpat; Stdlib.Hashtbl.reset t_specver
+   | [A "spec"; t; r] -> Stdlib.Hashtbl.replace t_spec (key_of_text (str t)) r
+   | [A "url"; A k; t; r] -> Stdlib.Hashtbl.replace t_url (k ^ ":" ^ key_of_text (str t)) r
+   | [A "env"; t; r] -> Stdlib.Hashtbl.replace t_env (key_of_text (str t)) r
+   | [A "root"; t] -> t_root := str t
+   | [A "resetenv"] -> Stdlib.Hashtbl.reset t_env; Stdlib.Hashtbl.reset t_url
+   | [A "reset"] -> Stdlib.Hashtbl.reset t_vparse; Stdlib.Hashtbl.reset t_specpat; Stdlib.Hashtbl.reset t_specver;
+                    Stdlib.Hashtbl.reset t_spec; Stdlib.Hashtbl.reset t_url
    | _ -> failwith "driver: tab");
   A "ok"
 let cc_get c = match Stdlib.Hashtbl.find_opt t_cc (string_of_n c) with Some v -> v | None -> raise (Miss (L [A "cc"; an c]))
@@ -232,6 +250,28 @@ let o_spec which tbl o t = match Stdlib.Hashtbl.find_opt tbl (vop_name o ^ ":" ^
   | Some (L [o2; rel]) -> Some (vop_ o2, nlist rel)
   | Some _ -> failwith "driver: spec entry"
   | None -> raise (Miss (L [A which; svop o; sstr t]))
+let o_specparse t = match Stdlib.Hashtbl.find_opt t_spec (key_of_text t) with
+  | Some (A "err") -> None
+  | Some (L [A "ok"; key; txt]) -> Some { ReqParse.sp_key = nlist key; ReqParse.sp_text = str txt }
+  | Some _ -> failwith "driver: spec table entry"
+  | None -> raise (Miss (L [A "spec"; sstr t]))
+let o_url is_path t = match Stdlib.Hashtbl.find_opt t_url ((if is_path then "T" else "F") ^ ":" ^ key_of_text t) with
+  | Some (A "err") -> None
+  | Some (L [A "ok"; d]) -> Some (str d)
+  | Some _ -> failwith "driver: url table entry"
+  | None -> raise (Miss (L [A "url"; bool_ is_path; sstr t]))
+let o_getenv t = match Stdlib.Hashtbl.find_opt t_env (key_of_text t) with
+  | Some (A "none") -> None
+  | Some (L [A "ok"; v]) -> Some (str v)
+  | Some _ -> failwith "driver: env table entry"
+  | None -> raise (Miss (L [A "env"; sstr t]))
+let swarn w = L (Stdlib.List.map (fun k -> A (wkind_s k)) w)
+let sperr (e : MarkerParse.perr) = L [A "err"; ekind_s e.MarkerParse.e_kind; an e.MarkerParse.e_start; an e.MarkerParse.e_len]
+let sopt f = function Some x -> f x | None -> A "none"
+let skind = function
+  | ReqParse.KNone -> A "none"
+  | ReqParse.KSpecs l -> L (A "specs" :: Stdlib.List.map (fun sp -> L [L (Stdlib.List.map an sp.ReqParse.sp_key); sstr sp.ReqParse.sp_text]) l)
+  | ReqParse.KUrl (d, g) -> L [A "url"; sstr d; sopt sstr g]
 
 (* ---- typed marker syntax ---- *)
 let rec mast (x : sexp) : Sem508.mast =
@@ -292,6 +332,41 @@ let run (cmd : sexp) : sexp =
          | MarkerParse.POk (e, w) -> L [A "ok"; (match e with Some e -> smexpr e | None -> A "none"); L (Stdlib.List.map (fun k -> A (wkind_s k)) w)]
          | MarkerParse.PErr e -> L [A "err"; ekind_s e.MarkerParse.e_kind; an e.MarkerParse.e_start; an e.MarkerParse.e_len])
       with Miss m -> L [A "oracle-miss"; m])
+  | L [A "preq"; verb; ext; t] | L [A "showreq"; verb; ext; t; _] ->
+      (try
+        let (pv, pfv) = !t_keys in
+        (match ReqParse.parse_requirement o_ws o_alpha o_alnum !t_kw o_vparse (o_spec "specpat" t_specpat) (o_spec "specver" t_specver) pv pfv
+                 o_specparse o_url o_getenv !t_root (to_bool verb) (to_bool ext) (str t) with
+         | MarkerParse.POk (r, w) ->
+             (match cmd with
+              | L [A "showreq"; _; _; _; mt] -> L [A "ok"; sstr (ReqParse.display_req r (match mt with A "none" -> None | m -> Some (str m)))]
+              | _ -> L [A "ok"; sstr r.ReqParse.r_name; L (Stdlib.List.map sstr r.ReqParse.r_extras); skind r.ReqParse.r_kind;
+                        sopt stree r.ReqParse.r_marker; swarn w])
+         | MarkerParse.PErr e -> sperr e)
+      with Miss m -> L [A "oracle-miss"; m])
+  | L [A "punnamed"; t] | L [A "showunnamed"; t; _] ->
+      (try
+        let (pv, pfv) = !t_keys in
+        (match ReqParse.parse_unnamed o_ws o_alpha o_alnum !t_kw o_vparse (o_spec "specpat" t_specpat) (o_spec "specver" t_specver) pv pfv
+                 o_url o_getenv !t_root true (str t) with
+         | MarkerParse.POk (r, w) ->
+             (match cmd with
+              | L [A "showunnamed"; _; mt] -> L [A "ok"; sstr (ReqParse.display_unnamed r (match mt with A "none" -> None | m -> Some (str m)))]
+              | _ -> L [A "ok"; sstr r.ReqParse.u_disp; sopt sstr r.ReqParse.u_given; L (Stdlib.List.map sstr r.ReqParse.u_extras);
+                        sopt stree r.ReqParse.u_marker; swarn w])
+         | MarkerParse.PErr e -> sperr e)
+      with Miss m -> L [A "oracle-miss"; m])
+  | L [A "pextras"; t] ->
+      (try
+        (match ReqParse.parse_extras_text o_ws (str t) with
+         | MarkerParse.POk l -> L [A "ok"; L (Stdlib.List.map sstr l)]
+         | MarkerParse.PErr e -> sperr e)
+      with Miss m -> L [A "oracle-miss"; m])
+  | L [A "expand"; t] -> (try L [A "ok"; sstr (ReqParse.expand o_getenv !t_root (str t))] with Miss m -> L [A "oracle-miss"; m])
+  | L [A "splitscheme"; t] -> (match ReqParse.split_scheme (str t) with Some (a, b) -> L [A "ok"; sstr a; sstr b] | None -> A "none")
+  | L [A "splitextras"; t] -> (match ReqParse.split_extras (str t) with Some (a, b) -> L [A "ok"; sstr a; sstr b] | None -> A "none")
+  | L [A "archive"; t] -> bool_ (ReqParse.looks_like_archive (str t))
+  | L [A "striphost"; t] -> sstr (ReqParse.strip_host (str t))
   | L [A "sem508"; pv; pfv; rels; ss; ex; a] ->
       let e = penv_ rels ss ex in
       let t = Sem508.compile (num pv) (num pfv) (mast a) in
